@@ -406,21 +406,18 @@ theorem mkHist_wf {e : Edges α} (he : ValidEdges e) (init : β) {h : Hist α β
 
 /-- **Sentence (5) for the structure.**  For strictly increasing edges in any dimension and any
 sequence of proper coordinates and weights (any in-range guesses): creation succeeds, no fill
-raises, and afterwards `get_nevents(include_out_of_range=True)` — the sum of all bins plus
-`n_out_of_range` — equals the total filled weight. -/
+raises, the edges are unchanged, and afterwards the sum of all bins plus `n_out_of_range` equals
+the total filled weight. -/
 theorem weight_conserved {e : Edges α} (he : ValidEdges e)
     (ops : List ((Nat → Nat → Nat → Int) × Coord α × β)) (hops : OpsOK e ops) :
-    ∃ h₀ h, mkHist e none (0 : β) = .ok h₀ ∧ fillAll h₀ ops = .ok h ∧
-      getNevents h true = sumW (ops.map (·.2.2)) ∧
+    ∃ h₀ h, mkHist e none (0 : β) = .ok h₀ ∧ fillAll h₀ ops = .ok h ∧ h.edges = e ∧
       total h.bins + h.nOut = sumW (ops.map (·.2.2)) := by
   have hd := mkHist_valid he (0 : β)
   obtain ⟨hwf, hedges, hn, hb⟩ := mkHist_wf he (0 : β) hd
-  obtain ⟨h, hf, _, _⟩ := fillAll_ok ops _ hwf (by rw [hedges]; exact hops)
+  obtain ⟨h, hf, _, he'⟩ := fillAll_ok ops _ hwf (by rw [hedges]; exact hops)
   have hc := (fillAll_conserves ops _ h hf).2
   simp only [total_full_zero, zero_add', add_zero] at hc
-  refine ⟨_, h, hd, hf, ?_, ?_⟩
-  · rw [getNevents_eq]; simpa using hc
-  · simpa using hc
+  exact ⟨_, h, hd, hf, he', by simpa using hc⟩
 
 end Fill2
 
@@ -494,23 +491,23 @@ theorem sumW_toOps (one : β) (vals : List ((Nat → Nat → Nat → Int) × Coo
   | cons v vs ih => simp only [toOps, List.map_cons, sumW, List.length_cons, List.replicate_succ] at ih ⊢; rw [ih]
 
 /-- **Sentence (5) for the element.**  After any flow of proper values (with or without contexts)
-into `Histogram(edges)`, `compute()` yields a histogram whose bins plus `n_out_of_range` sum to
-(number of values) × (unit weight), together with the context of the last value. -/
+into `Histogram(edges)`, the bins of its histogram plus `n_out_of_range` sum to
+(number of values) × (unit weight), and the current context is that of the last value. -/
 theorem elem_weight_conserved (empty : κ) (one : β) {ed : Edges α} (he : ValidEdges ed)
     (vals : List ((Nat → Nat → Nat → Int) × Coord α × Option κ))
     (hv : ∀ v ∈ vals, GuessesOK v.1 ∧ ∃ xs, Proper ed v.2.1 xs) :
     ∃ e₀ e, HistEl.new empty ed none (0 : β) = .ok e₀ ∧ HistEl.fillAll empty one e₀ vals = .ok e ∧
-      getNevents (HistEl.compute e).1 true = sumW (List.replicate vals.length one) ∧
-      (HistEl.compute e).2 = lastCtx empty empty vals := by
+      total e.hist.bins + e.hist.nOut = sumW (List.replicate vals.length one) ∧
+      e.curContext = lastCtx empty empty vals := by
   have hops : OpsOK ed (toOps one vals) := by
     intro op hm
     obtain ⟨v, hvm, rfl⟩ := List.mem_map.1 hm
     exact hv v hvm
-  obtain ⟨h₀, h, hm, hf, hn, _⟩ := weight_conserved (β := β) he (toOps one vals) hops
+  obtain ⟨h₀, h, hm, hf, _, hn⟩ := weight_conserved (β := β) he (toOps one vals) hops
   refine ⟨{ hist := h₀, curContext := empty }, { hist := h, curContext := lastCtx empty empty vals }, ?_, ?_, ?_, rfl⟩
   · simp [HistEl.new, hm, bind, Except.bind, pure, Except.pure]
   · rw [histEl_fillAll_eq, hf]; rfl
-  · simp only [HistEl.compute]; rw [hn, sumW_toOps]
+  · simp only []; rw [hn, sumW_toOps]
 
 end Elem
 
@@ -592,7 +589,7 @@ theorem exOps_ok : OpsOK exEdges exOps := by
   · exact ⟨fun _ => midGuess_ok, _, Proper.nested _ _ rfl⟩
 
 example : ∃ h₀ h, mkHist exEdges none (0 : Int) = .ok h₀ ∧ fillAll h₀ exOps = .ok h ∧
-    getNevents h true = 10 ∧ total h.bins + h.nOut = 10 :=
+    h.edges = exEdges ∧ total h.bins + h.nOut = 10 :=
   weight_conserved exEdges_valid exOps exOps_ok
 
 /-- flat (one-dimensional) edges and a bare number as coordinate -/
